@@ -75,7 +75,12 @@ def runErrvis (c : Case) : Res :=
   let tags := [if nerr ≥ 1 && nsec > nerr then "nt=C04,C08" else "nt=C04",
                s!"secs={(kv? c.header "secs").getD "?"}", s!"nerr={(kv? c.header "nerr").getD "?"}"]
   if c.lines.any (fun l => l.head? == some "impl" && l[1]? == some "panic") then
-    { verdict := "DIFF", tags := "dk=panic" :: tags, msg := "an output mode panicked" }
+    { verdict := "DIFF", tags := "dk=panic" :: tags,
+      msg := "an output mode panicked: " ++ String.intercalate " " (((c.lines.find? (fun l => l.head? == some "impl")).getD []).drop 2) }
+  else if c.lines.any (fun l => l.head? == some "impl" && l[1]? == some "moderr") then
+    { verdict := "ORACLE", tags := "of=C04" :: tags,
+      msg := "the render model fails as a whole although every security was processed: " ++
+             String.intercalate " " (((c.lines.find? (fun l => l.head? == some "impl")).getD []).drop 2) }
   else
     let vis := c.lines.filter (fun l => l.head? == some "vis")
     let badVis := vis.filterMap (fun l =>
